@@ -12,7 +12,7 @@ Correspondence
       (tolerance 2^-20: float32 additions are rounded, the theorem is exact)."""
 import time
 
-from vt.c18_util import ensure_dirs, FixedSampler, quiet_logs, zmat, run_jobs
+from vt.c18_util import bulk, ensure_dirs, FixedSampler, quiet_logs, zmat, run_jobs
 from vt.common import cz
 
 HEADER = ("From Coq Require Import List ZArith.\nFrom RL4CO Require Import Harness.HC18_atsp.\n"
@@ -103,7 +103,7 @@ def run_unit(ctx, proofs_ok):
     B2 = 24 if thorough else 4
     confs2 = [(n, mn, mx, (B2 if n <= 20 else max(2, B2 // 4))) for n in sizes2 for (mn, mx) in ((0.0, 1.0), (0.5, 2.0), (0.0, 10.0))]
     if thorough:          # bulk: >= 10^4 small matrices from the unmodified generator
-        confs2 += [(n, 0.0, 1.0, 500) for n in (4, 5, 6) for _ in range(7)]
+        confs2 += [(n, 0.0, 1.0, 50 * bulk(10)) for n in (4, 5, 6) for _ in range(7)]
     for (n, mn, mx, Bn) in confs2:
         if True:
             seed = rng.randrange(2 ** 31)
